@@ -37,7 +37,7 @@ def usort(name):
 INF = z3.Real("INF")          # np.inf as an (axiomatised: > every finite) real
 NANV = z3.Real("NAN")         # only ever *stored*; never compared (guarded)
 
-BACKGROUND = [INF > 0]
+BACKGROUND = [INF > 1000000000]
 
 
 def is_z3(v):
